@@ -76,6 +76,9 @@ pub fn programs() -> Vec<(&'static str, Module, bool)> {
         ("empty-strings", module(vec![("main", func(&[], vec![sg("t", C::CreateTable), C::Repeat { n: b(int(60)), i: Some("i".into()), body: b(comp(vec![sg("e", s("")), sg("o", s("x")), C::SetProperty(b(s("")), b(rv("t")), b(rv("i")))])) }, sg("len", C::Len(b(rv("t"))))]))]), true),
         // one object as key and as value of one entry, garbage after the run (two guards on one object)
         ("same-object-key-and-value", module(vec![("main", func(&[], vec![sv("str", s(&lit.repeat(4))), sv("t", C::CreateTable), C::SetProperty(b(rv("str")), b(rv("t")), b(rv("str"))), sv("u", C::CreateTable), C::SetProperty(b(rv("u")), b(rv("t")), b(rv("u"))), sg("len", C::Len(b(rv("t"))))]))]), true),
+        // calls of a function with the same index (and so the same label) as in other programs, at another position
+        ("calls-second-function", module(vec![("main", func(&[], vec![sv("pad", int(1)), sv("pad2", s("padding")), sg("r", call("first", vec![]))])), ("first", func(&[], vec![C::Return(b(int(7)))])), ("second", func(&[], vec![C::Return(b(int(2)))]))]), true),
+        ("calls-first-function", module(vec![("main", func(&[], vec![sg("r", call("first", vec![]))])), ("first", func(&[], vec![sv("q", int(40)), C::Return(b(add(rv("q"), int(2))))]))]), true),
         ("reads-global", module(vec![("main", func(&[], vec![sg("g", int(7)), sg("h", add(rv("g"), int(1)))]))]), true),
     ]
 }
@@ -309,6 +312,37 @@ fn repetition(i: usize, with_clear: bool, n: usize) -> Option<(String, String)> 
     None
 }
 
+/// Two *different* programs held one after the other in the same variable (the second compiled
+/// program takes the place, and the address, of the first): run A, optionally clear, store B in the
+/// slot, run B. With a clear in between B must equal B on a new VM in everything; without one
+/// (balanced A only) in result, host log and its own globals.
+fn slot_reuse(i: usize, j: usize, with_clear: bool) -> Option<(String, String)> {
+    let c = compiled();
+    let (an, _, ap, abal) = &c.progs[i];
+    let (bn, bm, bp, _) = &c.progs[j];
+    if !with_clear && !*abal {
+        return None;
+    }
+    let mut vm = fresh_vm();
+    let mut slot: CaoCompiledProgram = ap.clone();
+    verif::reset_instr_count();
+    let _ = vm.run(&slot);
+    if with_clear {
+        vm.clear();
+    }
+    vm.auxiliary_data.log.clear();
+    slot = bp.clone();
+    verif::reset_instr_count();
+    let r = vm.run(&slot);
+    let got = observe(&vm, bm, &slot, &r);
+    let want = &c.fresh[j];
+    let same = if with_clear { &got == want } else { got.result == want.result && got.log == want.log && want.globals.iter().all(|(k, v)| got.globals.get(k) == Some(v)) };
+    if !same {
+        return Some((format!("slot-reuse-differs:{bn}:{}", if with_clear { "with-clear" } else { "without-clear" }), format!("{bn} run from the variable that held {an} before ({}): {got:?}; on a new VM: {want:?}", if with_clear { "clear in between" } else { "no clear" })));
+    }
+    None
+}
+
 /// (allocated, next collection, limit) of a VM whose limit was set through `set_memory_limit`, of
 /// one created with that limit, and of both after a clear
 fn limit_config(limit: usize) -> Option<(String, String)> {
@@ -331,7 +365,7 @@ impl Check for C17 {
     }
     fn info(&self, tier: Tier) -> CheckInfo {
         CheckInfo {
-            rule: format!("{} programs on one VM with a 64 KiB limit and a 30000-instruction budget: ok-small, ok-allocating, gc-heavy (several collections), timeout, out-of-memory with live data, value-stack overflow, call-stack overflow, native error inside a callee with locals, leaves-globals, error with an open upvalue, stray values left on the stack, empty and one-byte strings, reads-global. BFS over histories of run(P_i) / clear to depth {}: a run on a fresh or cleared VM must equal the run of the same program on a new VM in result, globals, host log, instructions executed, accounted memory and object count after the run; after every clear the counters (allocated, next_gc, limit), both stack heights, globals, object list and open-upvalue list equal those of a new VM; programs that leave the stacks balanced may also follow each other without clear and must give the same outcome. Repetition: every program 1..{} times with clear in between, balanced programs 1..{} times without clear. Canonical state = hook dump of counters, stack heights, globals, object count, open upvalues. Non-trivial = state with something run since the last clear", programs().len(), tier.pick(4, 6), tier.pick(300, 600), tier.pick(300, 600)),
+            rule: format!("{} programs on one VM with a 64 KiB limit and a 30000-instruction budget: ok-small, ok-allocating, gc-heavy (several collections), timeout, out-of-memory with live data, value-stack overflow, call-stack overflow, native error inside a callee with locals, leaves-globals, error with an open upvalue, stray values left on the stack, empty and one-byte strings, reads-global. BFS over histories of run(P_i) / clear to depth {}: a run on a fresh or cleared VM must equal the run of the same program on a new VM in result, globals, host log, instructions executed, accounted memory and object count after the run; after every clear the counters (allocated, next_gc, limit), both stack heights, globals, object list and open-upvalue list equal those of a new VM; programs that leave the stacks balanced may also follow each other without clear and must give the same outcome. Slot reuse: every ordered pair (A, B) of the programs held one after the other in one program variable (B takes A's address), with and without a clear in between: B equals B on a new VM. Repetition: every program 1..{} times with clear in between, balanced programs 1..{} times without clear. Canonical state = hook dump of counters, stack heights, globals, object count, open upvalues. Non-trivial = state with something run since the last clear", programs().len(), tier.pick(4, 6), tier.pick(300, 600), tier.pick(300, 600)),
             bound: format!("history depth {}, repetition {}", tier.pick(4, 6), tier.pick(300, 600)),
             exhaustive: true,
             assumptions: vec!["host-registered functions are the same on every VM".into()],
@@ -351,6 +385,25 @@ impl Check for C17 {
                 out.evaluations += 1;
                 if let Some((k, w)) = limit_config(limit) {
                     out.violation(Violation::new("C17", k, w, json!({"kind": "limit-config", "limit": limit})));
+                }
+            }
+            // every ordered pair of programs through one program variable
+            let n = programs().len();
+            let mut k = 0u64;
+            for i in 0..n {
+                for j in 0..n {
+                    for with_clear in [true, false] {
+                        k += 1;
+                        if k <= cvx_core::engine::skip_cases() {
+                            continue;
+                        }
+                        cvx_core::engine::trace_case_at(k - 1, || json!({"kind": "slot-reuse", "a": i, "b": j, "with_clear": with_clear}));
+                        out.evaluations += 1;
+                        out.transitions += 2;
+                        if let Some((k, w)) = slot_reuse(i, j, with_clear) {
+                            out.violation(Violation::new("C17", k, w, json!({"kind": "slot-reuse", "a": i, "b": j, "with_clear": with_clear})));
+                        }
+                    }
                 }
             }
             hist::bfs(&Sys, &cfg(tier.pick(4, 6), tier.pick(35, 600)), out);
@@ -378,6 +431,9 @@ impl Check for C17 {
     fn replay(&self, case: &J) -> Option<Violation> {
         if case["kind"].as_str() == Some("limit-config") {
             return limit_config(case["limit"].as_u64()? as usize).map(|(k, w)| Violation::new("C17", k, w, case.clone()));
+        }
+        if case["kind"].as_str() == Some("slot-reuse") {
+            return slot_reuse(case["a"].as_u64()? as usize, case["b"].as_u64()? as usize, case["with_clear"].as_bool()?).map(|(k, w)| Violation::new("C17", k, w, case.clone()));
         }
         if case["kind"].as_str() == Some("repetition") {
             let (i, wc, n) = (case["program"].as_u64()? as usize, case["with_clear"].as_bool()?, case["n"].as_u64()? as usize);
